@@ -20,6 +20,11 @@ def _codec(problems):
             if codec.decode_be(fmt, data) != struct.unpack(fmt, data):
                 problems.append('codec.decode_be(%r) differs from struct.unpack on %r' % (fmt, data))
                 return
+    samples = {'>8s8sQQHQ': (b'12345678', b'abcdefgh', 5, 2 ** 40, 0, 77), '>8sQcHHH': (b'tid-tid!', 99, b'c', 1, 2, 65535),
+               '>Q': (2 ** 64 - 1,), '>2s6s': (b'ab', b'cdefgh'), '>q': (-5,), '>8s': (b'short',), '>H': (513,)}
+    for fmt, args in samples.items():
+        if codec.encode_be(fmt, args) != struct.pack(fmt, *args):
+            problems.append('codec.encode_be(%r) differs from struct.pack' % fmt)
     for v in (0, 1, 255, 256, 2 ** 32, 2 ** 63, 2 ** 64 - 1):
         if codec._p64(v) != struct.pack('>Q', v) or codec._u64(codec._p64(v)) != v:
             problems.append('codec p64/u64 differ on %d' % v)
